@@ -59,12 +59,45 @@ def gen_long(rng, max_digits, max_exp):
         t += "%"
     return t
 
+def gen_run(rng, lengths):
+    """A literal with ONE digit run whose length sits on a power of two (1023..1025, 2047..2049, 4095..4097): the integer part, the
+    fraction, or a fraction that starts with zeros - bulk conversions of long runs switch paths at such lengths (seed C07-h: a
+    run of >= 2048 digits converted in one go, place count taken after stripping its leading zeros)."""
+    L = rng.choice(lengths)
+    run = "".join(rng.choice("0123456789") for _ in range(L))
+    form = rng.randint(0, 5)
+    if form == 0:
+        t = run.lstrip("0") or "7"
+    elif form == 1:
+        t = "000" + run
+    elif form == 2:
+        t = str(rng.randint(0, 99)) + "." + run
+    elif form == 3:
+        z = rng.choice([1, 1, 2, 3, 17])
+        t = str(rng.randint(0, 9)) + "." + "0" * z + run[z:]          # the run starts with zeros
+    elif form == 4:
+        t = "." + "0" + run[1:-1] + "5"
+    else:
+        t = run[: L // 2] + "." + run[L // 2:]
+    if rng.random() < 0.3:
+        t += rng.choice("eE") + rng.choice(["", "+", "-"]) + str(rng.randint(0, 40))
+    if rng.random() < 0.3:
+        t = rng.choice("+-") + t
+    if rng.random() < 0.1:
+        t += "%"
+    return t
+
 def shard(p):
     acc = Acc()
     rng = rng_for(p["seed"], PID, p["shard"])
     lits = [gen_long(rng, p["digits"], p["max_exp"]) for _ in range(p["n"])]
+    lits += [gen_run(rng, [1023, 1024, 1025, 2047, 2048, 2049]) for _ in range(p.get("n_runs", 3))]
+    rel_only = [gen_run(rng, [4095, 4096, 4097]) for _ in range(p.get("n_runs_rel", 1))]
+    acc.count("literals_with_a_digit_run_at_a_power_of_two_length", len(lits[-p.get("n_runs", 3):]) + len(rel_only))
     for kind in p["builds"]:
         with Driver(p["bins"][kind]) as d:
+            if kind == "rel":
+                lits = lits + rel_only          # (the tool's digit loop is cubic in debug builds: the longest runs go to the release build only)
             for i in range(0, len(lits), 500):
                 chunk = lits[i:i + 500]
                 rep = d.call({"op": "c07_list", "literals": chunk}, timeout=600)
